@@ -23,19 +23,18 @@ NOW = 1700000000
 A, B, C = "aa" * 32, "bb" * 32, "cc" * 32
 
 
-class Ev:
-    def __init__(self, **kw):
-        self.__dict__.update(kw)
+def mk_ev(content_len=10, created_at=NOW, kind=1, pubkey=A, id_bits=200, p_tags=0, delegator=None):
+    """a real Event object (the class the validators receive in the relay), with every field an event has; `delegator`:
+    the event also carries a NIP-26 delegation tag naming that key (whether the tag verifies is is_signed's business; the
+    policy validators decide on the event's own pubkey)"""
+    from aionostr.event import Event
 
-    @property
-    def id_bytes(self):
-        return bytes.fromhex(self.id)
-
-
-def mk_ev(content_len=10, created_at=NOW, kind=1, pubkey=A, id_bits=200, p_tags=0):
     idint = (1 << (id_bits - 1)) | 1 if id_bits > 0 else 0
-    return Ev(content="x" * content_len, created_at=created_at, kind=kind, pubkey=pubkey, id="%064x" % idint,
-              tags=[["p", "00" * 32]] * p_tags + [["t", "x"]])
+    tags = [["p", "00" * 32]] * p_tags + [["t", "x"]]
+    if delegator is not None:
+        tags.append(["delegation", delegator, "kind=%d" % kind, "00" * 64])
+    return Event(content="x" * content_len, created_at=created_at, kind=kind, pubkey=pubkey, id="%064x" % idint,
+                 tags=tags, sig="00" * 64)
 
 
 def cfg(**kw):
@@ -87,6 +86,10 @@ def bound_cases():
             out.append(("is_author_whitelisted", cfg(pubkey_whitelist=wl), mk_ev(pubkey=pk)))
         for bl in ([], None, [pk]):
             out.append(("is_author_blacklisted", cfg(pubkey_blacklist=bl), mk_ev(pubkey=pk)))
+        # events published under a NIP-26 delegation: the lists are about the event's own pubkey, whoever delegated
+        for dg in (A, B, C):
+            out.append(("is_author_whitelisted", cfg(), mk_ev(pubkey=pk, delegator=dg)))
+            out.append(("is_author_blacklisted", cfg(), mk_ev(pubkey=pk, delegator=dg)))
     for bits in (256, 249, 248, 247, 200, 1, 0):
         for req in (0, 8, 9):
             out.append(("is_pow", cfg(require_pow=req), mk_ev(id_bits=bits)))
@@ -129,13 +132,14 @@ def validator_cases(report, drv):
         except Exception:
             v = "raises"
         mv = drv.call({"op": "adm.validator", "name": name, "cfg": model_cfg(c), "ev": model_ev(e), "now": NOW})
-        payload = {"validator": name, "cfg": vars(c), "ev": model_ev(e)}
+        payload = {"validator": name, "cfg": vars(c), "ev": model_ev(e),
+                   "delegator": next((t[1] for t in e.tags if t[0] == "delegation"), None)}
         if mv != v:
             report.correspondence_break("validators.%s" % name, payload, v, mv)
         if (v == "ok") != spec(name, c, e):
             report.property_failure("%s decides %s at %r, the documented bound says %s"
                                     % (name, v, model_ev(e), "admit" if spec(name, c, e) else "refuse"), payload, None)
-        report.case((name, repr(vars(c)), repr(model_ev(e))), nontrivial=True, sample={"validator": name, "verdict": v})
+        report.case((name, repr(vars(c)), repr(model_ev(e)), payload["delegator"]), nontrivial=True, sample={"validator": name, "verdict": v})
         report.count("validator_" + name)
 
 
@@ -153,11 +157,11 @@ def dynamic_verdict_cases(report, drv):
     try:
         for allowed in subsets:
             for denied in subsets:
-                for pk in keys:
+                for pk, dg in [(k, None) for k in keys] + [(k, d) for k in keys for d in keys if d != k]:
                     dl.ALLOWED_PUBKEYS = {bytes.fromhex(x) for x in allowed}
                     dl.DENIED_PUBKEYS = {bytes.fromhex(x) for x in denied}
                     try:
-                        dl.is_pubkey_allowed(types.SimpleNamespace(pubkey=pk), Config)
+                        dl.is_pubkey_allowed(mk_ev(pubkey=pk, delegator=dg), Config)
                         v = "ok"
                     except StorageError as ex:
                         v = "reject"
@@ -165,7 +169,7 @@ def dynamic_verdict_cases(report, drv):
                             report.property_failure("is_pubkey_allowed refuses without a reason", {"validator": "is_pubkey_allowed"}, None)
                     except Exception:
                         v = "raises"
-                    payload = {"validator": "is_pubkey_allowed", "allowed": allowed, "denied": denied, "pubkey": pk}
+                    payload = {"validator": "is_pubkey_allowed", "allowed": allowed, "denied": denied, "pubkey": pk, "delegator": dg}
                     mv = drv.call({"op": "adm.validator", "name": "is_pubkey_allowed", "cfg": model_cfg(cfg()), "ev": model_ev(mk_ev(pubkey=pk)),
                                    "now": NOW, "allowed": allowed, "denied": denied})
                     if mv != v:
@@ -175,8 +179,10 @@ def dynamic_verdict_cases(report, drv):
                         report.property_failure(
                             "is_pubkey_allowed %s an author who is %s the allow list (%d keys) and %s the deny list (%d keys)"
                             % ("admits" if v == "ok" else "refuses", "on" if pk in allowed else "not on", len(allowed),
-                               "on" if pk in denied else "not on", len(denied)), payload, None)
-                    report.case(("is_pubkey_allowed", repr(allowed), repr(denied), pk), nontrivial=bool(allowed or denied),
+                               "on" if pk in denied else "not on", len(denied))
+                            + (" [the event carries a delegation tag of a key that is %s the allow list and %s the deny list]"
+                               % ("on" if dg in allowed else "not on", "on" if dg in denied else "not on") if dg else ""), payload, None)
+                    report.case(("is_pubkey_allowed", repr(allowed), repr(denied), pk, dg), nontrivial=bool(allowed or denied),
                                 sample={"validator": "is_pubkey_allowed", "verdict": v})
                     report.count("validator_is_pubkey_allowed")
     finally:
@@ -203,11 +209,21 @@ def pipeline_cases(report, rng, tier):
     try:
         for i in range(40 if tier == "quick" else 600):
             viol = rng.choice(["none", "none", "size", "old", "future", "kind", "blacklist", "hellthread", "sig", "two",
+                               # a denied key publishing under a (genuine) NIP-26 delegation issued by a key that is not denied
+                               "blacklist-delegated", "delegated-none",
                                # validly signed events with a field of the wrong JSON type that violate a policy — or on which a
                                # policy cannot even be evaluated: never admitted
                                "old-as-string", "content-null-oversize", "kind-as-string"])
-            key = bad if viol == "blacklist" else sk
+            key = bad if viol in ("blacklist", "blacklist-delegated") else sk
             kw = dict(pubkey=key.public_key.hex(), content="ok %d" % i, kind=1, created_at=NOW - rng.randrange(100), tags=[])
+            if viol in ("blacklist-delegated", "delegated-none"):
+                import hashlib
+                from coincurve import PrivateKey as CPrivateKey
+
+                dk = CPrivateKey(b"\x03" * 32 if viol == "blacklist-delegated" else b"\x04" * 32)
+                to_sign = ":".join(["nostr", "delegation", kw["pubkey"], "kind=1"]).encode("utf8")
+                kw["tags"] = [["delegation", dk.public_key_xonly.format().hex(), "kind=1",
+                               dk.sign_schnorr(hashlib.sha256(to_sign).digest(), None).hex()]]
             if viol in ("size", "two"):
                 kw["content"] = "x" * 51
             if viol == "old":
@@ -237,7 +253,7 @@ def pipeline_cases(report, rng, tier):
                 res = st.add(dict(d))
                 after = st.dump()
                 payload = {"backend": st.backend, "violation": viol, "event": d}
-                if viol == "none":
+                if viol in ("none", "delegated-none"):
                     if not res["ok"]:
                         report.property_failure("%s: a conforming event was refused: %s" % (st.backend, res["reason"]), payload, None)
                 else:
@@ -247,7 +263,7 @@ def pipeline_cases(report, rng, tier):
                     elif not res["reason"]:
                         report.property_failure("%s: refusal without a reason" % st.backend, payload, None)
                 report.count("pipeline_" + st.backend)
-            report.case(("pipeline", viol, d["id"]), nontrivial=(viol != "none"), sample={"violation": viol})
+            report.case(("pipeline", viol, d["id"]), nontrivial=(viol not in ("none", "delegated-none")), sample={"violation": viol})
     finally:
         for st in stores:
             st.close()
@@ -306,7 +322,7 @@ def dynamic_case(report, drv, rng, allow_old, allow_new, deny_new, whitelist, ou
 
     def verdict():
         try:
-            dl.is_pubkey_allowed(types.SimpleNamespace(pubkey=outsider), Config)
+            dl.is_pubkey_allowed(mk_ev(pubkey=outsider), Config)
             return "admitted"
         except StorageError:
             return "refused"
